@@ -26,8 +26,12 @@ echo "== unedited suite WITH the change (must pass)"; (cd $wt/lib && go test -co
 git -C /repo worktree remove --force $wt
 # run the checks against the change
 cd /verif
-if [ -n "$(git -C /repo status --porcelain --untracked-files=no)" ]; then echo "/repo dirty"; exit 2; fi
-git -C /repo apply $src/patch.diff || exit 2
+# the checks run against a scratch clone of /repo's HEAD (VERIF_REPO), so /repo itself is never touched
+# and background runs that build from /repo cannot pick the change up
+EV=/tmp/repo-eval-$name
+rm -rf $EV; git clone -q /repo $EV || exit 2
+git -C $EV apply $src/patch.diff || exit 2
+export VERIF_REPO=$EV
 results=""
 for id in $checks; do
   out=$(./check $id 2>&1); rc=$?
@@ -36,7 +40,8 @@ for id in $checks; do
   echo "check $id: exit=$rc violations=$nv $rule"
   results="$results $id:exit=$rc:violations=$nv"
 done
-git -C /repo checkout -- .
+unset VERIF_REPO
+rm -rf $EV
 mkdir -p seeded/$name
 cp $src/patch.diff seeded/$name/patch.diff
 cp $demo_file seeded/$name/
@@ -45,7 +50,7 @@ import json,sys
 m=json.load(open(sys.argv[1])); name=sys.argv[2]
 m['independently_verified']={'demo_passes_without_change': sys.argv[3]=='0', 'demo_fails_with_change': sys.argv[4]!='0', 'unedited_suite_passes_with_change': sys.argv[5]=='0'}
 m['checks_run_against_it']=sys.argv[6].split()
-m['what_was_run']="seed_eval.sh: fresh worktree of /repo HEAD under /tmp (demo without/with the patch, unedited lib test suite with the patch), then `git -C /repo apply patch.diff`, ./check <ids> (quick tier, VERIF_SEED=1), `git -C /repo checkout -- .`"
+m['what_was_run']="seed_eval.sh: fresh worktree of /repo HEAD under /tmp (demo without/with the patch, unedited lib test suite with the patch), then the patch applied to a scratch clone of /repo HEAD (VERIF_REPO=<clone>), ./check <ids> (quick tier, VERIF_SEED=1), clone removed"
 json.dump(m,open('/verif/seeded/%s/meta.json'%name,'w'),indent=1)
 print(json.dumps(m['independently_verified']), m['checks_run_against_it'])
 PY
